@@ -55,4 +55,9 @@ finally:
     import shutil
     shutil.rmtree(os.path.dirname(WT), ignore_errors=True)
     shutil.rmtree(env["VERIF_BUILD"], ignore_errors=True)
-json.dump(results, open(res_path, "w"), indent=1, sort_keys=True)
+import fcntl
+with open(res_path + ".lock", "w") as lk:
+    fcntl.flock(lk, fcntl.LOCK_EX)   # several runs may finish at the same time: merge under a lock
+    cur = json.load(open(res_path)) if os.path.exists(res_path) else {}
+    cur.update({k: results[k] for k in ids if k in results})
+    json.dump(cur, open(res_path, "w"), indent=1, sort_keys=True)
